@@ -221,6 +221,8 @@ pub fn costmdls(langs: u8) -> csl::Costmdls {
 }
 
 pub struct Session<'a> {
+    /// sub-builders handed to the transaction builder so far (bit 0 collateral, 1 certificates, 2 withdrawals, 3 mint, 4 votes, 5 proposals)
+    pub handed: u8,
     pub sc: &'a Scenario,
     pub w: &'a World,
     pub tx: csl::TransactionBuilder,
@@ -252,6 +254,7 @@ fn unit(a: u64, b: u64) -> csl::UnitInterval {
 impl<'a> Session<'a> {
     pub fn new(sc: &'a Scenario) -> Self {
         Session {
+            handed: 0,
             sc,
             w: &sc.world,
             tx: csl::TransactionBuilder::new(&config(&sc.knobs)),
@@ -1077,6 +1080,7 @@ impl<'a> Session<'a> {
                 let colb = &mut self.colb;
                 g!(colb.add_regular_utxo(&utxo));
                 self.tx.set_collateral(&self.colb);
+                self.handed |= 1 << 0;
                 self.mark_value_change();
                 self.mark_coll_change();
                 Res::Ok
@@ -1184,6 +1188,7 @@ impl<'a> Session<'a> {
                 // the builder now owns a mint builder we do not mirror: resync ours from it
                 if let Some(mb) = self.tx.get_mint_builder() {
                     self.mint = mb;
+                    self.handed |= 8;
                 }
                 self.mark_value_change();
                 self.mark_script_change();
@@ -1221,6 +1226,7 @@ impl<'a> Session<'a> {
                     }
                 };
                 self.tx.set_certs_builder(&self.certs);
+                self.handed |= 1 << 1;
                 self.mark_value_change();
                 self.mark_script_change();
                 match r {
@@ -1263,6 +1269,7 @@ impl<'a> Session<'a> {
                     }
                 };
                 self.tx.set_withdrawals_builder(&self.wdrs);
+                self.handed |= 1 << 2;
                 self.mark_value_change();
                 self.mark_script_change();
                 match r {
@@ -1293,6 +1300,7 @@ impl<'a> Session<'a> {
                     }
                 }
                 self.tx.set_mint_builder(&self.mint);
+                self.handed |= 1 << 3;
                 self.mark_value_change();
                 self.mark_script_change();
                 match r {
@@ -1337,6 +1345,7 @@ impl<'a> Session<'a> {
                     }
                 };
                 self.tx.set_voting_builder(&self.votes);
+                self.handed |= 1 << 4;
                 self.mark_value_change();
                 self.mark_script_change();
                 match r {
@@ -1371,6 +1380,7 @@ impl<'a> Session<'a> {
                     }
                 };
                 self.tx.set_voting_proposal_builder(&self.props);
+                self.handed |= 1 << 5;
                 self.mark_value_change();
                 self.mark_script_change();
                 match r {
@@ -1504,6 +1514,7 @@ impl<'a> Session<'a> {
             }
             Op::RemoveCerts => {
                 self.tx.remove_certs();
+                self.handed &= !(1 << 1);
                 self.certs = csl::CertificatesBuilder::new();
                 for a in self.h.attaches.iter_mut() {
                     if matches!(a.purpose, Purpose::Cert(_)) {
@@ -1516,6 +1527,7 @@ impl<'a> Session<'a> {
             }
             Op::RemoveWithdrawals => {
                 self.tx.remove_withdrawals();
+                self.handed &= !(1 << 2);
                 self.wdrs = csl::WithdrawalsBuilder::new();
                 for a in self.h.attaches.iter_mut() {
                     if matches!(a.purpose, Purpose::Reward(_)) {
@@ -1528,6 +1540,7 @@ impl<'a> Session<'a> {
             }
             Op::RemoveMint => {
                 self.tx.remove_mint_builder();
+                self.handed &= !(1 << 3);
                 self.mint = csl::MintBuilder::new();
                 for a in self.h.attaches.iter_mut() {
                     if matches!(a.purpose, Purpose::Mint(_)) {
@@ -1573,6 +1586,7 @@ impl<'a> Session<'a> {
                         let _ = nb.add(&plain.get(i));
                     }
                     self.certs = nb;
+                    self.handed |= 2;
                     for a in self.h.attaches.iter_mut() {
                         if matches!(a.purpose, Purpose::Cert(_)) {
                             a.live = false;
@@ -1611,6 +1625,7 @@ impl<'a> Session<'a> {
                         }
                     }
                     self.wdrs = nb;
+                    self.handed |= 4;
                     for a in self.h.attaches.iter_mut() {
                         if matches!(a.purpose, Purpose::Reward(_)) {
                             a.live = false;
@@ -1647,6 +1662,7 @@ impl<'a> Session<'a> {
                 });
                 if let Some(mb) = self.tx.get_mint_builder() {
                     self.mint = mb;
+                    self.handed |= 8;
                 }
                 self.mark_value_change();
                 self.mark_script_change();
@@ -1654,6 +1670,33 @@ impl<'a> Session<'a> {
                     Ok(()) => Res::Ok,
                     Err(r) => r,
                 }
+            }
+            Op::HandOverAgain(mask) => {
+                // the front end hands the collection builders it holds over again (nothing changed in them):
+                // the transaction builder must be exactly what it was
+                let m = *mask & self.handed;
+                if m & 1 != 0 {
+                    self.tx.set_collateral(&self.colb);
+                }
+                if m & 2 != 0 {
+                    self.tx.set_certs_builder(&self.certs);
+                }
+                if m & 4 != 0 {
+                    self.tx.set_withdrawals_builder(&self.wdrs);
+                }
+                if m & 8 != 0 {
+                    self.tx.set_mint_builder(&self.mint);
+                }
+                if m & 16 != 0 {
+                    self.tx.set_voting_builder(&self.votes);
+                }
+                if m & 32 != 0 {
+                    self.tx.set_voting_proposal_builder(&self.props);
+                }
+                if m == 0 {
+                    return Res::Skipped("nothing handed over yet");
+                }
+                Res::Ok
             }
             Op::SetInputsAgain => {
                 self.tx.set_inputs(&self.inb);
@@ -1816,8 +1859,15 @@ impl<'a> Session<'a> {
                 let _ = self.inb.get_plutus_input_scripts();
                 let _ = self.inb.get_native_input_scripts();
                 let _ = self.inb.get_ref_inputs();
+                // what a preview asks: the marginal fee of one more output / input (the builder works on copies of itself)
+                let probe_out = csl::TransactionOutput::new(&self.w.address(&AddrSpec::Ent(Cred::Key(0))), &csl::Value::new(&bn(2_000_000)));
+                let probe_in = self.w.utxos.iter().position(|u| matches!(u.addr.pay_cred(), Some(Cred::Key(_))) && !matches!(u.addr, AddrSpec::Byron(_) | AddrSpec::ByronPath(..))).map(|i| (self.w.address(&self.w.utxos[i].addr), self.w.input_of(&self.w.utxos[i]), self.w.value(self.w.utxos[i].coin, &self.w.utxos[i].assets)));
                 let tx = &self.tx;
                 let r = guard(|| {
+                    let _ = tx.fee_for_output(&probe_out);
+                    if let Some((a, i, v)) = &probe_in {
+                        let _ = tx.fee_for_input(a, i, v);
+                    }
                     for _ in 0..2 {
                         let _ = tx.min_fee();
                         let _ = tx.full_size();
